@@ -12,29 +12,53 @@ import (
 
 type BasicPrivateIssuer struct {
 	tokenKey *oprf.PrivateKey
+	// Encodings taken once at construction. The key objects of the OPRF library compute and
+	// cache state on use, so every call works on its own copy of the key: an issuer holds
+	// only construction-time state and can be shared between goroutines.
+	tokenKeyEnc  []byte
+	publicKeyEnc []byte
 }
 
 func NewBasicPrivateIssuer(key *oprf.PrivateKey) *BasicPrivateIssuer {
-	return &BasicPrivateIssuer{
-		tokenKey: key,
-	}
-}
-
-func (i *BasicPrivateIssuer) TokenKey() *oprf.PublicKey {
-	return i.tokenKey.Public()
-}
-
-func (i *BasicPrivateIssuer) TokenKeyID() []byte {
-	pkIEnc, err := i.tokenKey.Public().MarshalBinary()
+	tokenKeyEnc, err := key.MarshalBinary()
 	if err != nil {
 		panic(err)
 	}
-	keyID := sha256.Sum256(pkIEnc)
+	publicKeyEnc, err := key.Public().MarshalBinary()
+	if err != nil {
+		panic(err)
+	}
+	return &BasicPrivateIssuer{
+		tokenKey:     key,
+		tokenKeyEnc:  tokenKeyEnc,
+		publicKeyEnc: publicKeyEnc,
+	}
+}
+
+// privateKey returns a copy of the token key for the exclusive use of one call.
+func (i *BasicPrivateIssuer) privateKey() *oprf.PrivateKey {
+	key := new(oprf.PrivateKey)
+	if err := key.UnmarshalBinary(oprf.SuiteP384, i.tokenKeyEnc); err != nil {
+		panic(err)
+	}
+	return key
+}
+
+func (i *BasicPrivateIssuer) TokenKey() *oprf.PublicKey {
+	key := new(oprf.PublicKey)
+	if err := key.UnmarshalBinary(oprf.SuiteP384, i.publicKeyEnc); err != nil {
+		panic(err)
+	}
+	return key
+}
+
+func (i *BasicPrivateIssuer) TokenKeyID() []byte {
+	keyID := sha256.Sum256(i.publicKeyEnc)
 	return keyID[:]
 }
 
 func (i BasicPrivateIssuer) Evaluate(req *BasicPrivateTokenRequest) ([]byte, error) {
-	server := oprf.NewVerifiableServer(oprf.SuiteP384, i.tokenKey)
+	server := oprf.NewVerifiableServer(oprf.SuiteP384, i.privateKey())
 
 	e := group.P384.NewElement()
 	err := e.UnmarshalBinary(req.BlindedReq)
@@ -75,7 +99,7 @@ func (i BasicPrivateIssuer) Type() uint16 {
 }
 
 func (i BasicPrivateIssuer) Verify(token tokens.Token) error {
-	server := oprf.NewVerifiableServer(oprf.SuiteP384, i.tokenKey)
+	server := oprf.NewVerifiableServer(oprf.SuiteP384, i.privateKey())
 
 	tokenInput := token.AuthenticatorInput()
 	output, err := server.FullEvaluate(tokenInput)
